@@ -194,8 +194,62 @@ def _struct_formats(tree: ast.Module) -> Dict[str, str]:
     return out
 
 
+class _TestOfFreshLocal(ast.NodeTransformer):
+    """``x = <call>`` immediately followed by ``if x:`` / ``if not x:`` where x is used nowhere else in the function:
+    the call is put back into the test (same evaluation point, same value), so that the rules which read the test
+    (``response_future.done()``, ``validator(data)``, ``lock.locked()``) see it."""
+
+    def __init__(self):
+        self.count = 0
+
+    def _fn(self, node):
+        self.generic_visit(node)
+        uses = {}
+        for x in ast.walk(node):
+            if isinstance(x, ast.Name):
+                uses[x.id] = uses.get(x.id, 0) + 1
+        params = {a.arg for a in node.args.posonlyargs + node.args.args + node.args.kwonlyargs}
+
+        def fix(block):
+            i = 0
+            while i + 1 < len(block):
+                a, b = block[i], block[i + 1]
+                if isinstance(a, ast.Assign) and len(a.targets) == 1 and isinstance(a.targets[0], ast.Name) and isinstance(a.value, ast.Call) \
+                        and isinstance(b, ast.If) and a.targets[0].id not in params and uses.get(a.targets[0].id) == 2:
+                    nm = a.targets[0].id
+                    t = b.test
+                    inner = t.operand if isinstance(t, ast.UnaryOp) and isinstance(t.op, ast.Not) else t
+                    if isinstance(inner, ast.Name) and inner.id == nm:
+                        if inner is t:
+                            b.test = a.value
+                        else:
+                            t.operand = a.value
+                        del block[i]
+                        self.count += 1
+                        continue
+                i += 1
+            for st in block:
+                for fld in ("body", "orelse", "finalbody"):
+                    sub = getattr(st, fld, None)
+                    if isinstance(sub, list) and sub and isinstance(sub[0], ast.stmt) and not isinstance(st, (ast.FunctionDef, ast.AsyncFunctionDef, ast.ClassDef)):
+                        fix(sub)
+                for h in getattr(st, "handlers", []) or []:
+                    fix(h.body)
+        fix(node.body)
+        return node
+
+    visit_FunctionDef = _fn
+    visit_AsyncFunctionDef = _fn
+
+
 def desugar(trees: Dict[str, ast.Module]) -> int:
     n = 0
+    for name, tree in trees.items():
+        tl = _TestOfFreshLocal()
+        tl.visit(tree)
+        if tl.count:
+            ast.fix_missing_locations(tree)
+            n += tl.count
     for name, tree in trees.items():
         fmts = _struct_formats(tree)
         if fmts:
